@@ -272,6 +272,14 @@ func isFullChange(r protocol.Range) bool {
 
 func (s *Server) DidClose(ctx context.Context, params *protocol.DidCloseTextDocumentParams) error {
 	s.documents.Delete(params.TextDocument.URI)
+	if s.workspace != nil {
+		if path := uriToPath(params.TextDocument.URI); path != "" {
+			// the buffer is gone, with any unsaved changes: the file on disk is the document again
+			if data, err := os.ReadFile(path); err == nil {
+				s.workspace.UpdateFile(path, string(data))
+			}
+		}
+	}
 	s.dropDocVersion(params.TextDocument.URI)
 	tokenCache.delete(params.TextDocument.URI)
 	return nil
